@@ -159,6 +159,15 @@ func Verif_Engine_parallel() {
 	ref := vRefFold(min, max, d.accepted)
 	V.Assert(len(res) == len(ref), "C07/length")
 	V.Assert(len(res) >= 1, "C03/never-empty")
+	// C03, stated on the replies themselves (not through the reference merge): the list ends at the lowest TTL for
+	// which a destination reply was accepted, or at the last TTL if none was
+	endTTL := int(max)
+	for i := range d.accepted {
+		if d.accepted[i].IsDest && int(d.accepted[i].TTL) < endTTL {
+			endTTL = int(d.accepted[i].TTL)
+		}
+	}
+	V.Assert(len(res) == endTTL-int(min)+1, "C03/ends-at-lowest-destination-ttl")
 	if len(res) == len(ref) {
 		for i := range res {
 			V.Assert(vSameHop(res[i], ref[i]), "C07/merge-is-reference-fold")
@@ -235,6 +244,13 @@ func Verif_Engine_serial() {
 		}
 	}
 	V.Assert(V.Implies(!sawDest, len(res) == int(max-min)+1), "C03/full-length-without-destination")
+	endTTL := int(max)
+	for i := range d.accepted {
+		if d.accepted[i].IsDest && int(d.accepted[i].TTL) < endTTL {
+			endTTL = int(d.accepted[i].TTL)
+		}
+	}
+	V.Assert(len(res) == endTTL-int(min)+1, "C03/ends-at-lowest-destination-ttl")
 	for i, t := range d.sent {
 		V.Assert(int(t) == int(min)+i, "C06/increasing-from-first-ttl-once-each")
 		if i > 0 {
